@@ -206,12 +206,11 @@ def run(rep):
     rep.check('R10.e', fkey(bi, 'factory branch'), ok, 'a render argument is re-interpreted by a render factory only when re-binding applies' if ok else
               'the render-factory branch is not conditioned on bind_render', route, fac[0] if fac else bi.node)
     carry = [s for s in rs if s not in expl and s not in fac]
-    ok = len(carry) == 1 and isinstance(carry[0].value, ast.IfExp)
-    if ok:
-        v = carry[0].value
-        t, b, o = norm(v.test), norm(v.body), norm(v.orelse)
-        ok = (t == 'callable(%s.render)' % ps[1] and b == '%s.render' % ps[1] and o == '_noop_render') or \
-            (t == 'not callable(%s.render)' % ps[1] and o == '%s.render' % ps[1] and b == '_noop_render')
+    # (conditional expressions are normalised to if/else by the loader)
+    is_prev = lambda t: norm(t) == 'callable(%s.render)' % ps[1]
+    keep = [s for s in carry if norm(s.value) == '%s.render' % ps[1] and has_cond(conds(bi, s), is_prev, True)]
+    noop = [s for s in carry if norm(s.value) == '_noop_render' and has_cond(conds(bi, s), is_prev, False)]
+    ok = len(carry) == 2 and len(keep) == 1 and len(noop) == 1
     rep.check('R10.e', fkey(bi, 'carry-through branch'), ok, 'otherwise the previously bound renderer is carried through' if ok else
               'the carry-through branch of render selection changed', route, carry[0] if carry else bi.node)
     br = [s for s in stmts_of(bi.node) if isinstance(s, ast.Assign) and norm(s.targets[0]) == 'bind_render']
